@@ -2606,9 +2606,11 @@ func compDefineX(sc *scope, n *node) error {
 		// Careful to not reuse a variable which has been shadowed (it must not be a newSym).
 		sym, level, ok := sc.lookup(id)
 		canRedeclare := hasNewSymbol && len(symIsNew) > 1 && !symIsNew[id] && ok
-		if canRedeclare && level == n.child[i].level && sym.kind == varSym && sym.typ.id() == t.id() {
+		if canRedeclare && level == n.child[i].level && sym.kind == varSym && (sym.typ.id() == t.id() || t.cat == valueT && t.assignableTo(sym.typ)) {
+			// The variable keeps its type, to which the value is assigned.
 			index = sym.index
 			n.child[i].redeclared = true
+			t = sym.typ
 		} else {
 			index = sc.add(t)
 			sc.sym[id] = &symbol{index: index, kind: varSym, typ: t}
